@@ -139,7 +139,8 @@ CLAIMED = {
              "hash set of ids is iterated, and the final order is fixed by a stable sort; from the declared components: the "
              "normalised list of a reordered list is a permutation of the normalised list, or the same error "
              "(C10_normalize_reorder: per-system sums, any processing order of the systems), hence the same evaluation "
-             "(C10_reorder_declared). Text level, over the reader model of "
+             "(C10_reorder_declared); any injective renumbering of the systems gives the renumbered normalised components in "
+             "the order of the new numbers (C10_normalize_rename, C10_rename_declared). Text level, over the reader model of "
              "Model/Parse.v (tied to FromStr by the exact correspondence of C16): the reader sees the text only through its "
              "trimmed lines (C10_text_is_read_by_trimmed_lines), so white space around any line (C10_text_whitespace), "
              "blank / comment / header lines anywhere (C10_text_ignored_line), a byte order mark (C10_text_bom) and a CR "
